@@ -92,11 +92,17 @@ REGISTRY = {
                             "provenance, append post-dominates the copy loop, limit array length N, version tables, checked "
                             "status/method conversions; partial parser: absent version/status => need-more (R20.6), emptiness "
                             "guard dominates the append (R20.7); no panic reachable from input bytes (R20.8)."),
+    "C02": dict(modules=["rules_c02"], min_instances=10, trusted_base=TB + ["format_args! template decoder (self-tested on every run)"],
+                explanation="E6 emission templates on E4 paths: the closures run by Writer::try_write are interpreted with format "
+                            "templates decoded from MIR; line atomicity and rollback pairing (R02.1), request-line and header-line "
+                            "templates with argument origins and the blank-line guard (R02.2/R02.3), resume discipline (R02.4), "
+                            "overflow table (R02.5), header order of the effective iterator and its consumers (R02.6), Host/framing "
+                            "decision table with writer agreement (R02.7), no body bytes in this state (R02.8)."),
 }
 
 _PENDING = "check not built yet in this round (planned static rules: DESIGN.md section 4)"
 NOT_APPLICABLE = {
-    "C01": _PENDING, "C02": _PENDING, "C03": _PENDING, 
+    "C01": _PENDING, "C03": _PENDING, 
     
     "C12": _PENDING, "C16": _PENDING,
     "C18": _PENDING, 
@@ -106,6 +112,14 @@ NOT_APPLICABLE = {
 }
 
 MANIFEST_META = {
+    "C02": dict(
+        technique="emission-template analysis over MIR (decoded format_args + abstract interpretation) + CFG dominance rules",
+        design_ref="DESIGN.md section 4 C02",
+        level_text="Structural clauses of the head writer decided on every path: what a line consists of and where each item "
+                   "comes from, all-or-nothing lines, resume and overflow discipline, header order, Host/framing synthesis.",
+        level_note="NOT decided: validity of foreign Display output (Method, HeaderName, Version), and the for-all-buffer-sequences "
+                   "concatenation (argued from the clauses, not machine-checked). Reviewed: header_count - 1 on a header-less "
+                   "relative-URI request."),
     "C05": dict(
         technique="abstract interpretation over MIR (verdict-class tables, provenance) + CFG post-dominance rules",
         design_ref="DESIGN.md section 4 C05",
